@@ -44,6 +44,27 @@ TABLE = {
           ('all_but_retyping_mutators_leave_the_state_literally_unchanged', 'failed_step_exact Names.parse Names.fmt', []),
           ('rejected_add_edge_leaves_no_implicit_nodes', '@at_add_edge_fail Names.parse', []),
           ]),
+ 'C06': ('Base Alias AliasProofs',
+         'C06 — exports, copies and derived graphs never alias the graph or each other.\n'
+         '    Object identity lives in the Python runtime; the model carries the COPY DISCIPLINE: every container has an identity,\n'
+         '    metadata is two-level (dict + nested mutable values), and each operation allocates or shares identities as the table\n'
+         '    [copy_discipline] says (the table is re-measured on the live objects by id() on every run). [Sep\'] is full separation\n'
+         '    with the ONE known carve-out: to_dict shares nested values (recorded finding F9, refuted below).',
+         [('separation_holds_after_any_history', 'sep_run_init', []),
+          ('container_level_separation_after_any_history', 'sep_outer_run_init', []),
+          ('full_separation_for_histories_without_to_dict', 'sep_full_run', []),
+          ('every_step_preserves_separation', 'sep_step', []),
+          ('to_dict_keeps_container_level_separation', 'sep_outer_export_dict', []),
+          ('to_dict_shares_nested_values_refuted', 'to_dict_inner_shared_refuted', []),
+          ('to_dict_nested_write_is_visible_refuted', 'to_dict_nested_write_visible', []),
+          ('mutating_an_export_is_invisible_to_graph_and_other_exports', 'export_mutation_invisible', []),
+          ('container_level_mutation_of_any_export_is_invisible', 'export_outer_mutation_invisible', []),
+          ('later_graph_mutations_do_not_reach_earlier_exports', 'graph_mutation_invisible', []),
+          ('producing_an_export_does_not_modify_the_graph', 'producing_is_readonly', []),
+          ('distinct_nodes_and_edges_of_a_derived_graph_share_nothing', 'sep_export_internal', []),
+          ('only_to_dict_is_shallow_in_the_table', 'table_only_to_dict_shallow', []),
+          ('no_table_row_aliases', 'table_rows_safe', []),
+          ]),
  'C07': ('Base Names Graph GraphObs GraphInv Equality EqualityProofs Extracted Facts',
          'C07 — graph equality is a structural equivalence relation.\n'
          '    [graph_eqb] follows CausalGraph.__eq__ statement by statement (an error value where Python would raise);\n'
